@@ -21,7 +21,7 @@ def doc_wrap_value(ctx):
 
 
 def run(ctx, chk):
-    fb = ctx.facts('dev')
+    fb = ctx.facts()
     chk.explanation = ('Effect sequence of every path of ShmWrite::write (P4) and exhaustive evaluation of the extracted '
                        'stored-value terms and path atoms over all 65 536 generation values an update can start from '
                        '(P1-P3, including wrap and odd start); crate-wide rule that nothing else stores the generation (P5).')
